@@ -78,6 +78,7 @@ type State struct {
 	ghostCalled map[string]Term // call-history flags: name -> Bool term
 	callRes     map[string]Val  // results of the calls executed so far, by short callee name (#k = k-th call site)
 	epoch       string          // non-empty once a call with arbitrary effects has happened on the way here
+	pending     map[string]string // heaps havocked by name before anything looked at them (sort not known yet) -> version tag
 }
 
 func (s *State) clone() *State {
@@ -96,6 +97,12 @@ func (s *State) clone() *State {
 	n.callRes = map[string]Val{}
 	for k, v := range s.callRes {
 		n.callRes[k] = v
+	}
+	if len(s.pending) > 0 {
+		n.pending = map[string]string{}
+		for k, v := range s.pending {
+			n.pending[k] = v
+		}
 	}
 	return n
 }
@@ -490,13 +497,16 @@ func (u *Unit) heap(st *State, name, sort string) Term {
 		u.heapSort[name] = sort
 		u.heapInit[name] = Term{n, sort}
 	}
-	if st.epoch != "" {
-		// the state has been through a call with arbitrary effects since entry: a heap that is
-		// looked at for the first time now is NOT the entry version
-		key := st.epoch + "|" + name
+	if tag, ok := st.pending[name]; ok || st.epoch != "" {
+		// the state has been through a call with arbitrary effects (or one whose frame names this
+		// heap) since entry: a heap that is looked at for the first time now is NOT the entry version
+		if !ok {
+			tag = st.epoch
+		}
+		key := tag + "|" + name
 		t, ok := u.epochHeaps[key]
 		if !ok {
-			n := fmt.Sprintf("HE_%s_%s", st.epoch, mangle(name))
+			n := fmt.Sprintf("HE_%s_%s", tag, mangle(name))
 			if len(n) > 90 {
 				n = fmt.Sprintf("%s_%d", n[:80], len(u.epochHeaps))
 			}
@@ -563,8 +573,16 @@ func (u *Unit) havocHeaps(st *State, names []string, why string) {
 	}
 	for _, n := range names {
 		s, ok := u.heapSort[n]
-		if !ok {
-			continue
+		if !ok || st.heaps[n].S == "" {
+			// nothing has looked at this heap on this path yet: remember that the version seen from
+			// here on is not the entry version
+			if st.pending == nil {
+				st.pending = map[string]string{}
+			}
+			st.pending[n] = u.sym("hv")
+			if !ok {
+				continue
+			}
 		}
 		if strings.HasPrefix(n, "GC:") || (strings.HasPrefix(n, "RV:") && why != "loop") {
 			continue // ghost state of map iterations is not touched by calls
